@@ -569,6 +569,58 @@ def run(prog, rep, tier):
     for s_ in _sub.rules.get("R11.5", {}).get("samples", []):
         rep.examined(R35, str(s_)[:70], sample=s_)
 
+    # ------------------------------------------------------------ R3.7 each bound goes to the predicate written for it
+    # dt_after_or_before(dt, f) classifies against the *lower* bound: equality means "at or after", which
+    # is inside the window.  Handing it the upper bound makes the upper bound exclusive (a message
+    # exactly on --dt-before is dropped).  Checked by the names the argument is derived from: a value
+    # whose provenance says "before" must never reach an after-role parameter, and vice versa.
+    R37 = rep.rule("R3.7", "the lower-bound predicates receive the --dt-after bound, the two-bound predicates receive (after, before)")
+    AFTER_ROLE = ("dt_after_or_before", "sysline_dt_after_or_before", "entry_dt_after_or_before", "find_sysline_at_datetime_filter",
+                  "find_sysline_at_datetime_filter_binary_search", "find_sysline_at_datetime_filter_linear_search")
+    TWO = ("dt_pass_filters", "sysline_pass_filters", "entry_pass_filters", "find_sysline_between_datetime_filters", "ts_pass_filters")
+
+    def _names(b_, op_):
+        res = set()
+        if op_[0] == "k":
+            return res
+        import flow as _fl
+        nt = _fl.named_target(b_, op_, through=_fl.REF_THROUGH + ("Clone>::clone", "::clone"))
+        if nt is not None and b_.local_name(nt):
+            res.add(b_.local_name(nt))
+        for x in b_.origins(op_, through_calls=("::deref", "::as_ref", "Clone>::clone", "::clone")):
+            if x[0] in ("arg", "local"):
+                nm_ = b_.local_name(x[1])
+                if nm_:
+                    res.add(nm_)
+                res.update(p_ for p_ in x[-1] if isinstance(p_, str) and p_ not in ("*", "&") and not p_.startswith("as "))
+        return res
+    n37 = 0
+    for b_ in prog.bodies():
+        if not (b_.path.startswith("s4lib::") or b_.path.startswith("s4::")) or "_tests" in b_.path:
+            continue
+        for c in b_.live_calls():
+            if not c.d.startswith("s4lib::"):
+                continue
+            last = c.d.split("::")[-1]
+            if last in AFTER_ROLE and len(c.args) >= 2:
+                n37 += 1
+                fa = c.args[-1] if last.startswith("find_sysline_at") else c.args[1]
+                nm_ = _names(b_, fa)
+                bad_ = sorted(x for x in nm_ if "before" in x and "after_or_before" not in x)
+                rep.examined(R37, "%s|%s" % (b_.path, last), sample={"site": b_.path.split("::")[-1], "callee": last, "bound_argument_names": sorted(nm_)})
+                if bad_:
+                    rep.violation(R37, "%s|%s|role" % (b_.path, last), "%s (line %d): %s() classifies against the lower bound (equality counts as inside) but receives %s; used on --dt-before it makes the upper bound exclusive, "
+                                  "so a message exactly on --dt-before is not printed" % (b_.path.split("::")[-1], c.line, last, bad_))
+            elif last in TWO and len(c.args) >= 3:
+                n37 += 1
+                a_, bb_ = (c.args[-2], c.args[-1])
+                na, nb = _names(b_, a_), _names(b_, bb_)
+                rep.examined(R37, "%s|%s" % (b_.path, last), sample={"site": b_.path.split("::")[-1], "callee": last, "after_argument_names": sorted(na), "before_argument_names": sorted(nb)})
+                if any("before" in x for x in na) or any("after" in x for x in nb):
+                    rep.violation(R37, "%s|%s|role" % (b_.path, last), "%s (line %d): %s() receives its bounds in the wrong roles (after-slot: %s, before-slot: %s)" % (b_.path.split("::")[-1], c.line, last, sorted(na), sorted(nb)))
+    if n37 < 8:
+        raise CheckerError("R3.7: only %d predicate call sites found (10 on the pinned tree)" % n37)
+
     # ------------------------------------------------------------ R3.6 the lower-bound search uses the ordering only
     # find_sysline_at_datetime_filter_binary_search must return the FIRST message at or after the bound.
     # With several messages at exactly the bound, a probe that lands on one of them is not the answer
